@@ -51,6 +51,8 @@ def cases(tier):
                 for org in (0, 1):
                     s = U.spec(cls, shape, sp, org)
                     for op in ("construct", "apply_BCs", "solvePDE", "solveExplicitPDE", "scale"):
+                        if op == "scale" and tier == "quick" and sp != (templates[-1],) * d:
+                            continue        # quick: invariance under scaling (a, b, c) on the irregular template only
                         out.append({"grid": s, "op": op, "tier": tier})
                     if sp == (templates[-1],) * d:
                         out.append({"grid": s, "op": "sharing", "tier": tier})
